@@ -63,6 +63,15 @@ Theorem C03_counter_never_moves_back_in_any_history :
     NoDup (counters (snd (brun E D apps st evs))) /\
     Forall (fun x => (G <= x < G + N.of_nat (total evs))%N) (counters (snd (brun E D apps st evs))).
 Proof. exact batches_counters. Qed.
+(* ... and over a whole history of redeliveries: batches of copies of one frame (a batch = copies handled at the same
+   time under any schedule, cut anywhere; batch after batch, as retransmissions and late gateways produce them): the
+   frame is recorded at most once in total (and answered at most once, C09). *)
+Theorem C03_redeliveries_recorded_once_in_any_history :
+  forall (E D : list N -> list N -> list N) apps c, (c < 65535)%N ->
+  forall bs st r, Forall (cbatch_ok c) bs -> ds_row st = Some r -> d_relaxed r = false -> fb_down st ->
+    (length (ds_inbox (fst (crun E D apps st bs))) <= S (length (ds_inbox st)))%nat /\
+    (length (downs (snd (crun E D apps st bs))) <= 1)%nat.
+Proof. exact copies_history. Qed.
 (* the two-handler interleaving the forced-schedule correspondence executes on the real pipeline is the
    two-element case of interleaveN, so both theorems speak about it: *)
 Theorem C03_two_handlers_is_an_instance :
@@ -103,3 +112,4 @@ Print Assumptions C03_concurrent_counter_never_moves_back.
 Print Assumptions C03_two_handlers_is_an_instance.
 Print Assumptions C03_two_copies_recorded_once.
 Print Assumptions C03_counter_never_moves_back_in_any_history.
+Print Assumptions C03_redeliveries_recorded_once_in_any_history.
